@@ -1,5 +1,5 @@
 /-
-`Proofs.Cf.ParseTop` — the parser half of `compile_complete_kwfree`: on `ROOT`, the tokens of a valid
+`Proofs.Cf.ParseTop` — the parser half of `compile_complete`: on `ROOT`, the tokens of a valid
 derivation and `EOF`, `parseTop` returns the derivation's AST for all sufficiently large fuel.
 -/
 import JPV.Proofs.Cf.ParseExpr
